@@ -2176,6 +2176,8 @@ def preprocess_file(
                 value = defs.get(tok)
                 if value == "True":  # macro defined without a body
                     return 1, pos + 1
+                if isinstance(value, int):  # number from the configuration file
+                    return int(value), pos + 1
                 if isinstance(value, str) and depth < 16:
                     return evaluate(value, depth + 1), pos + 1
                 return 0, pos + 1  # undefined or function-like macros are 0
@@ -2466,9 +2468,10 @@ def preprocess_file(
 
             if isinstance(def_regex, tuple):
                 def_regex, value = def_regex
-            elif isinstance(value, str):
-                # Object-like macro bodies are literal text, not a template
-                value = value.replace("\\", r"\\")
+            else:
+                # Object-like macro bodies are literal text, not a template; the
+                # configuration file may give them as numbers
+                value = str(value).replace("\\", r"\\")
 
             line_new, nsubs = def_regex.subn(value, line)
             if len(line_new) > PP_MAX_LINE_LENGTH:
